@@ -157,8 +157,9 @@ PROPS = {
   "tests": ["TestC13"],
   "rule": "as C10 with time steps aimed at due-1/due/due+1 of every timer and at the deadline instant, cancellations at arbitrary instants, already-cancelled contexts; every refusal of a caller that "
           "had been blocked must happen exactly at its bound, none may stay blocked past it; non-trivial = a bounded refusal / an already-cancelled arrival",
-  "level_text": "C13_cancelled_ctx, C13_after_deadline, C13_wait_timer proved (arrival-time refusals hold no capacity; a waiter's timer is armed at exactly its bound); expiry at the bound is decided by replay "
-                "against the model's timer semantics + oracle (theorem over `advance` in progress).",
+  "level_text": "C13_cancelled_ctx, C13_after_deadline, C13_wait_timer (arrival-time refusals hold no capacity; a waiter's timer is armed at exactly its bound), C13_queue_timeout, "
+                "C13_cancel_refuses (a cancellation refuses a blocked caller at that instant), C13_fire_clears and C13_nobody_past_due (after any advance of the clock no caller of the queue or "
+                "deadline limiter is blocked past its due instant) proved over the settled model for every state; the blocking limiter's poll period is decided by replay + oracle.",
   "level_note": "Trusted as C10; the blocking limiter's timeout is a polling period (as coded), not a bound - it is not listed in the property either.",
   "technique": "Coq theorems on settled model + differential replay on a virtual clock",
  },
